@@ -22,6 +22,8 @@ func c19(r *core.Run) {
 	r.Rule("C19/R4", "genesis validation: each duplicate-index map of GenesisState.Validate is used for exactly one record kind")
 	r.Rule("C19/R5", "exhaustive export: no function reachable from ExportGenesis uses the SDK pagination helpers (bounded by a default page size), and every iterator loop there is left only when the iterator is exhausted (or by a panic)")
 	r.Rule("C19/R6", "records read for export are decoded into a variable local to the iteration: the generated decoder does not reset its target, so a shared target exports records polluted with the previous record's repeated and empty-on-the-wire fields")
+	r.Rule("C19/R7", "InitGenesis writes every element of every imported list: import loops are left only when the list is exhausted and no path through a loop body skips the write")
+	r.Rule("C19/R8", "InitGenesis hands the genesis file's parameter set to SetParams as it is (no completion with defaults: proto3 cannot tell an absent field from an explicit zero)")
 	r.Rule("C19/R3", "field pairing: every GenesisState field is assigned in ExportGenesis and read in InitGenesis")
 	hs, err := p.Handlers()
 	if err != nil {
@@ -85,44 +87,7 @@ func c19(r *core.Run) {
 			}
 		}
 		// R5 exhaustive enumeration on the export path
-		for _, fn := range p.Summary(expFn).Funcs {
-			allInstrs(fn, func(in ssa.Instruction) {
-				call, ok := in.(ssa.CallInstruction)
-				if !ok {
-					return
-				}
-				if ext := core.ExtCallee(call); ext != nil && ext.Pkg != nil && strings.HasSuffix(ext.Pkg.Pkg.Path(), "cosmos-sdk/types/query") {
-					r.Violation("C19/R5", m+":export-paginated:"+fn.Name(), p.InstrPos(call), "ExportGenesis reaches "+ext.Name()+" of the SDK query package: a nil page request means the default page size (100 records), so the export silently stops after the first page")
-				}
-			})
-			// iterator loops leave only through Valid()=false (or a panic)
-			for _, b := range fn.Blocks {
-				ifi, ok := b.Instrs[len(b.Instrs)-1].(*ssa.If)
-				if !ok {
-					continue
-				}
-				vc, ok := ifi.Cond.(*ssa.Call)
-				if !ok || !vc.Call.IsInvoke() || vc.Call.Method.Name() != "Valid" {
-					continue
-				}
-				nIter++
-				for _, lb := range fn.Blocks {
-					if !core.SameLoop(lb, b) {
-						continue
-					}
-					for _, sc := range lb.Succs {
-						if core.SameLoop(sc, b) || lb == b {
-							continue
-						}
-						if endsInPanicOrFailure(p, fn, sc) {
-							continue
-						}
-						r.Violation("C19/R5", m+":export-loop-exits-early:"+fn.Name(), p.InstrPos(lb.Instrs[len(lb.Instrs)-1]), "an iteration on the export path can end before the iterator is exhausted: records after that point are not exported")
-					}
-				}
-				r.Ok("C19/R5", m+":export-loop:"+fn.Name(), p.InstrPos(ifi), "iteration ends only when the iterator is exhausted")
-			}
-		}
+		nIter += exhaustiveEnumeration(r, "C19/R5", m, p.Summary(expFn).Funcs)
 		// R2
 		for _, pre := range sortedKeys(E) {
 			if !I[pre] {
@@ -177,6 +142,68 @@ func c19(r *core.Run) {
 		}
 	}
 	r.Floor("C19/R1", nW, 18, "record kinds written by transactions")
+	// R8 the imported parameter set is stored verbatim
+	for _, m := range core.CustomModules {
+		initFn, _ := p.GenesisEntries(m)
+		if initFn == nil {
+			continue
+		}
+		nSet := 0
+		for _, fn := range p.Summary(initFn).Funcs {
+			allInstrs(fn, func(in ssa.Instruction) {
+				c, ok := in.(ssa.CallInstruction)
+				if !ok || fn != initFn {
+					return
+				}
+				for _, cal := range p.Callees(c) {
+					if cal.Name() != "SetParams" || core.ModuleOf(cal) != m {
+						continue
+					}
+					nSet++
+					args := dataArgs(c)
+					t := core.NewTermBuilder(p).Term(args[len(args)-1])
+					okV := false
+					var base ssa.Value
+					switch x := args[len(args)-1].(type) {
+					case *ssa.Field:
+						if core.FieldName(x.X.Type(), x.Field) == "Params" {
+							base = x.X
+						}
+					case *ssa.UnOp:
+						if fa, ok := x.X.(*ssa.FieldAddr); ok && core.FieldName(fa.X.Type(), fa.Field) == "Params" {
+							base = fa.X
+						}
+					}
+					if al, ok := base.(*ssa.Alloc); ok {
+						// the by-value genesis parameter spilled to a local
+						n := 0
+						for _, ref := range *al.Referrers() {
+							if st, ok := ref.(*ssa.Store); ok && st.Addr == al {
+								n++
+								base = st.Val
+							}
+						}
+						if n != 1 {
+							base = nil
+						}
+					}
+					if prm, ok := base.(*ssa.Parameter); ok && prm.Parent() == initFn {
+						okV = true
+					}
+					r.Check(okV, "C19/R8", m+":import-params-verbatim", p.InstrPos(c), "SetParams(genState.Params)", "InitGenesis stores "+t+" instead of the genesis file's parameter set as it is: a parameter that is legitimately 0 / empty comes back as a default after export and import")
+				}
+			})
+		}
+		if nSet == 0 {
+			r.Undecided("C19/R8", m+":import-params-verbatim", p.Pos(initFn.Pos()), "InitGenesis does not call the module's SetParams directly")
+		}
+	}
+	// R7 import writes every element
+	nImp := 0
+	for _, m := range core.CustomModules {
+		nImp += genesisImportsAll(r, "C19/R7", m)
+	}
+	r.Floor("C19/R7", nImp, 15, "import loops")
 	// R6 exported records are decoded into fresh variables
 	var expFuncs []*ssa.Function
 	seenF := map[*ssa.Function]bool{}
